@@ -5,7 +5,7 @@
 
 Each patch is applied to a scratch copy of /repo in /dev/shm (never to /repo). CAUGHT = exit 1 at every seed,
 FLAKY = caught at some seeds only, MISSED = never caught."""
-import glob, os, shutil, subprocess, sys
+import glob, json, os, shutil, subprocess, sys
 
 sys.path.insert(0, os.path.dirname(os.path.abspath(__file__)))
 import mut  # noqa: E402
@@ -24,6 +24,13 @@ def main():
         if only and prop not in only:
             continue
         patch = os.path.join(d, "patch.diff")
+        try:
+            disp = json.load(open(os.path.join(d, "meta.json"))).get("disposition")
+        except Exception:
+            disp = None
+        if disp == "out_of_domain":
+            print(f"{name}: OUT-OF-DOMAIN (kept for the record, see meta.json)", flush=True)
+            continue
         s = mut.scratch()
         try:
             r = subprocess.run(["patch", "-p1", "-s", "-d", s, "-i", patch], capture_output=True, text=True)
